@@ -100,7 +100,38 @@ def lit(value):
         if isinstance(x, list):
             return [conv(y) for y in x]
         return yaml_scalar_str(x)
-    return {'t': 'lit', 'leaves': leaves_json(flatten(conv(value))), 'value': value}
+    return {'t': 'lit', 'leaves': leaves_json(flatten(conv(value))), 'value': value, 'ty': lit_type(value)}
+
+
+def lit_type(v):
+    if isinstance(v, bool):
+        return 'boolstr'
+    if isinstance(v, int):
+        return 'intstr'
+    if isinstance(v, float):
+        return 'float'
+    if isinstance(v, list):
+        return 'list'
+    if isinstance(v, dict):
+        return 'map'
+    s = str(v)
+    if re.fullmatch(r'-?\d+', s):
+        return 'intstr'
+    if s.lower() in ('true', 'false', 'yes', 'no', 'on', 'off'):
+        return 'boolstr'
+    return 'string'
+
+
+def ref_type(parts):
+    last = parts[-1]
+    if parts[0] == 'input':
+        return {'x': 'string', 'n': 'int', 'flag': 'bool'}.get(last, 'object' if len(parts) == 1 else 'unknown')
+    if len(parts) <= 3:
+        return 'any'
+    if len(parts) == 4:
+        return 'object'
+    return {'tok': 'string', 'reason': 'string', 'message': 'string', 'output': 'string', 'error': 'string', 'n': 'int', 'l': 'list',
+            'enabled': 'bool', 'cancelled': 'bool', 'close_requested': 'bool', 'data': 'list'}.get(last, 'unknown')
 
 
 def node_of_path(parts):
@@ -120,7 +151,7 @@ def ref(path, opaque=None):
     if opaque is None:
         opaque = parts[0] == 'steps' and len(parts) == 3
     return {'t': 'ref', 'refs': [node], 'mode': 'opaque' if opaque else 'path', 'src': node, 'sub': sub,
-            'expr': '$.' + path}
+            'expr': '$.' + path, 'ty': ref_type(parts)}
 
 
 def fexpr(expr, refs):
@@ -130,7 +161,7 @@ def fexpr(expr, refs):
         n, _ = node_of_path(r.split('.'))
         if n not in nodes:
             nodes.append(n)
-    return {'t': 'ref', 'refs': nodes, 'mode': 'opaque', 'src': 'nil', 'sub': [], 'expr': expr}
+    return {'t': 'ref', 'refs': nodes, 'mode': 'opaque', 'src': 'nil', 'sub': [], 'expr': expr, 'ty': 'any'}
 
 
 def tmap(kids):
@@ -160,9 +191,9 @@ def strip_tree(t):
     """the form TLC reads: no python-only keys"""
     k = t['t']
     if k == 'lit':
-        return {'t': 'lit', 'leaves': t['leaves']}
+        return {'t': 'lit', 'leaves': t['leaves'], 'ty': t.get('ty', 'string')}
     if k == 'ref':
-        return {'t': 'ref', 'refs': t['refs'], 'mode': t['mode'], 'src': t['src'], 'sub': t['sub']}
+        return {'t': 'ref', 'refs': t['refs'], 'mode': t['mode'], 'src': t['src'], 'sub': t['sub'], 'ty': t.get('ty', 'any')}
     if k == 'map':
         return {'t': 'map', 'kids': {kk: strip_tree(v) for kk, v in t['kids'].items()}}
     if k == 'list':
